@@ -4,7 +4,7 @@
            Model/Conv.v (FilterConv: valid convolution, scatter, set_filter_radius),
            Model/DensFilt.v (DensityFilter._calculate_h, Filter base class). *)
 From Coq Require Import ZArith QArith List Reals Bool.
-From Pymoto Require Import Base.Num Model.Grid Model.Pad Model.Conv Model.DensFilt
+From Pymoto Require Import Base.Num Base.SparseLin Model.Grid Model.Pad Model.Conv Model.DensFilt
      Proofs.GridP Proofs.PadP Proofs.ConvP Proofs.DensFiltP.
 Import ListNotations.
 Open Scope Z_scope.
@@ -62,6 +62,31 @@ Theorem C09_pad_mixed_oversize_differs :
 Proof. exact axis_pad_mixed_large_differs. Qed.
 Print Assumptions C09_pad_mixed_oversize_differs.
 
+(* ... and what the code does there, exactly.  Symmetric on the left (any right mode, ANY pad size): the left pad
+   is the mirror image, about the left boundary face, of the ALREADY RIGHT-EXTENDED array; everything from the
+   left boundary on is the per-side rule *)
+Theorem C09_pad_sym_left_oversize : forall (K A : Type) (c d : A) (m1 : bmode K) (p : Z) (l : list A),
+  1 <= Z.of_nat (length l) -> 0 <= p ->
+  (forall i, 0 <= i < p ->
+     nth (Z.to_nat i) (axis_pad c (@BSym K) m1 p l) d = nth (Z.to_nat (2 * p - 1 - i)) (axis_pad c (@BSym K) m1 p l) d) /\
+  (forall i, p <= i < Z.of_nat (length l) + 2 * p ->
+     nth (Z.to_nat i) (axis_pad c (@BSym K) m1 p l) d = reads c l (ext1 (@BSym K) m1 (Z.of_nat (length l)) (i - p))).
+Proof. exact @axis_pad_sym_left_oversize. Qed.
+Print Assumptions C09_pad_sym_left_oversize.
+
+(* wrap on the left, symmetric on the right (ANY pad size): everything up to the right boundary is the per-side
+   rule; the right pad is the mirror image of the ALREADY LEFT-WRAPPED array about the right boundary face *)
+Theorem C09_pad_wrap_sym_oversize : forall (A : Type) (c d : A) (p : Z) (l : list A),
+  1 <= Z.of_nat (length l) -> 0 <= p ->
+  let n := Z.of_nat (length l) in
+  (forall i, 0 <= i < n + p ->
+     nth (Z.to_nat i) (axis_pad c (@BWrap Z) BSym p l) d = reads c l (ext1 (@BWrap Z) BSym n (i - p))) /\
+  (forall i, n + p <= i < n + 2 * p ->
+     nth (Z.to_nat i) (axis_pad c (@BWrap Z) BSym p l) d =
+     nth (Z.to_nat (2 * (n + p) - 1 - i)) (axis_pad c (@BWrap Z) BSym p l) d).
+Proof. exact @axis_pad_wrap_sym_oversize. Qed.
+Print Assumptions C09_pad_wrap_sym_oversize.
+
 (* ================================================================= FilterConv = convolution with the extension *)
 
 (* np.add.at(y, el3d_orig, y3d): entry (a, b, d) of the valid-mode convolution lands at its element number *)
@@ -91,6 +116,29 @@ Theorem C09_conv_formula : forall (K : Type) (H : Num K),
             (ext3 c x (a - (qa - ppx c)) (b - (qb - ppy c)) (d - (qc - ppz c))))).
 Proof. exact @fc_conv_formula. Qed.
 Print Assumptions C09_conv_formula.
+
+(* the same map as a triple list (dst, src, coeff) plus an affine part for the constants: equal to the faithful
+   response at every element, all destinations/sources are element numbers, hence <w, T x> = <T^T w, x> *)
+Theorem C09_triples_form : forall (K : Type) (H : Num K),
+  ring_theory nzero none_ nadd nmul nsub nopp (@eq K) ->
+  forall f : @fconv K, let c := fc_pad f in
+  pads_nonneg c -> dims_ok c -> pad_ok c ->
+  shape3 (fc_w f) = (2 * ppx c + 1, 2 * ppy c + 1, 2 * ppz c + 1) ->
+  forall (x : list K) a b d, Z.of_nat (length x) = nel (pg c) ->
+  0 <= a < nelx (pg c) -> 0 <= b < nely (pg c) -> 0 <= d < nz1 (pg c) ->
+  zget (fc_response_lin f x) (elemnumber (pg c) a b d) = zget (fc_response f x) (elemnumber (pg c) a b d).
+Proof. exact @fc_response_lin_at. Qed.
+Print Assumptions C09_triples_form.
+
+Theorem C09_triples_adjoint : forall (K : Type) (H : Num K),
+  ring_theory nzero none_ nadd nmul nsub nopp (@eq K) ->
+  forall f : @fconv K, let c := fc_pad f in
+  pads_nonneg c -> dims_ok c -> pad_ok c ->
+  shape3 (fc_w f) = (2 * ppx c + 1, 2 * ppy c + 1, 2 * ppz c + 1) ->
+  forall w x : list K, length w = Z.to_nat (nel (pg c)) -> length x = Z.to_nat (nel (pg c)) ->
+  dot w (apply (fc_triples f) (Z.to_nat (nel (pg c))) x) = dot (fc_sensitivity_lin f (Z.to_nat (nel (pg c))) w) x.
+Proof. exact @fc_triples_adjoint. Qed.
+Print Assumptions C09_triples_adjoint.
 
 (* C09_bounds: non-negative kernel summing to one, no constant padding, no overrides => lo <= x <= hi implies
    lo <= y <= hi (take lo = min x, hi = max x) *)
